@@ -30,7 +30,8 @@ included) is an event of `lockSites` — the table `lock_order` is proved over; 
 known; every file of the root package is scanned (other-OS files listed separately). -/
 theorem lock_inventory_complete :
     Gen.Conc.lockCallCount = Gen.Conc.lockSitesCount ∧
-    Gen.Conc.mutexFields = [("Vaxis", "closeMu"), ("Vaxis", "mu"), ("writer", "mut"), ("Parser", "mu"), ("Model", "mu")] ∧
+    Gen.Conc.mutexFields = [("Vaxis", "closeMu"), ("Vaxis", "suspendMu"), ("Vaxis", "mu"), ("writer", "mut"), ("Parser", "mu"),
+      ("Model", "mu")] ∧
     (∀ f ∈ Gen.Conc.rootFilesAll, f ∈ Gen.Conc.filesScanned ∨ f ∈ Gen.Conc.rootFilesOtherOS) ∧
     Gen.Conc.rootFilesOtherOS = ["vaxis_windows.go"] := by decide +kernel
 
